@@ -159,6 +159,13 @@ class Config(_mixins.CodeMixin):
     def seed_sequence(self, value: Any) -> None:
         self._seed_sequence = value
         self.rng = np.random.default_rng(self._seed_sequence)
+        self.random = random.Random(self._seed_sequence)
+        """
+        Random number generator of the standard library owned by the config. It yields
+        the same stream as the process-wide generator seeded with the same value, but it
+        is not affected by anything else happening in the process (e.g., by the creation
+        of other `Config` instances).
+        """
         random.seed(self._seed_sequence)
 
     @property
@@ -182,6 +189,7 @@ class Config(_mixins.CodeMixin):
         # NOTE: We want to preserve the RNG, otherwise simulations may lead to repeated
         # samples if the user reuses the simulator.
         config_copy.rng = self.rng
+        config_copy.random = self.random
 
         return config_copy
 
